@@ -145,6 +145,7 @@ impl Work {
             memo: None,
             same_thread: false,
             cpu_limit_s: None,
+            stale_out: false,
             steps: vec![],
         }
     }
